@@ -10,6 +10,8 @@
 (*   Inst(i,j)   == i and j differ at exactly one position                     *)
 (*   R[i,j]      == product of the parameters whose predicate holds for (i,j)  *)
 (*   W[i,j]      == "word": pi_j | "monomer": pi(target nucleotide)            *)
+(*                  | "monomers": pi_position(target nucleotide), word probs =  *)
+(*                  product over positions normalised over the states           *)
 (*                  | "conditional": pi_j / sum of pi_k over words k that       *)
 (*                  differ from j at most at the changed position               *)
 (*                  | "none" (general non-stationary models): 1                 *)
@@ -80,8 +82,15 @@ Factor(ps, i, j) == IF ps = <<>> THEN One
 (* word probabilities: the distribution the calibration (and stationarity) refers to *)
 MonoProd(m, w) == IF m.L = 2 THEN RMul(m.pi[<<w[1]>>], m.pi[<<w[2]>>])
                   ELSE RMul(RMul(m.pi[<<w[1]>>], m.pi[<<w[2]>>]), m.pi[<<w[3]>>])
+PosName(p) == CASE p = 1 -> "0" [] p = 2 -> "1" [] p = 3 -> "2"
+PosProd(m, w) == RMul(RMul(m.pi[<<"0", w[1]>>], m.pi[<<"1", w[2]>>]), m.pi[<<"2", w[3]>>])
 WordProbs(m) ==
-    IF m.kind = "monomer"
+    IF m.kind = "monomers"      \* position-specific nucleotide probabilities (codon positions differ)
+    THEN LET S == States(m.L)
+             raw == [w \in S |-> PosProd(m, w)]
+             tot == RSumSet(S, raw)
+         IN  [w \in S |-> RDiv(raw[w], tot)]
+    ELSE IF m.kind = "monomer"
     THEN LET S == States(m.L)
              raw == [w \in S |-> MonoProd(m, w)]
              tot == RSumSet(S, raw)
@@ -92,6 +101,7 @@ Weight(m, wp, i, j) ==
     LET p == Pos(i, j)
     IN  CASE m.kind = "word"        -> wp[j]
           [] m.kind = "monomer"     -> m.pi[<<j[p]>>]
+          [] m.kind = "monomers"    -> m.pi[<<PosName(p), j[p]>>]
           [] m.kind = "conditional" ->
                 LET ctx == {k \in States(m.L) : \A q \in 1..m.L : q # p => k[q] = j[q]}
                 IN  RDiv(wp[j], RSumSet(ctx, wp))
